@@ -231,6 +231,34 @@ Proof.
   apply fstep_read. eapply frun_keeps; eassumption.
 Qed.
 
+
+(* every read of a history is determined by the FINAL store: entries never change once created *)
+Lemma frun_reads_final cmds : forall st st' os,
+  frun cmds st = Some (st', os) ->
+  forall r it cols o, In (CRead r it cols, o) (combine cmds os) ->
+  exists ops, nth_error st' r = Some ops /\ o = out_of (reader_getitem ops it cols).
+Proof.
+  induction cmds as [|c rest IH]; intros st st' os H r it cols o Hin; cbn [Model.frun] in H.
+  - injection H as <- <-. destruct Hin.
+  - destruct (fstep st c) as [[st1 o1]|] eqn:E1; [|discriminate].
+    destruct (frun rest st1) as [[st2 os2]|] eqn:E2; [|discriminate]. injection H as <- <-.
+    cbn [combine In] in Hin. destruct Hin as [Hh|Ht].
+    + injection Hh as -> ->. cbn [Model.fstep] in E1.
+      destruct (nth_error st r) as [ops|] eqn:Er; [|discriminate]. injection E1 as <- <-.
+      exists ops. split; [|reflexivity]. eapply frun_keeps; eassumption.
+    + eapply IH; eassumption.
+Qed.
+
+(* the observation of any history on the functional store is Stable *)
+Lemma frun_stable cmds st st' os : frun cmds st = Some (st', os) -> Stable (combine cmds os).
+Proof.
+  intros H c o c' o' Hin Hin' Hs. pose proof (same_read_eq _ _ Hs) as <-.
+  destruct c as [p o1|r it cols]; [discriminate Hs|].
+  destruct (frun_reads_final cmds st st' os H r it cols o Hin) as (ops & Hn & ->).
+  destruct (frun_reads_final cmds st st' os H r it cols o' Hin') as (ops' & Hn' & ->).
+  congruence.
+Qed.
+
 (* Den st est: reader k's op list is the compilation of the expression it denotes *)
 Definition Den (st : list (list op)) (est : list expr) : Prop :=
   Forall2 (fun ops e => ops = compile e) st est.
@@ -460,6 +488,12 @@ Lemma hrun_independent0 cmds1 cmds2 h1 os1 h2 os2 k it cols h' o :
 Proof.
   intros H1 Hr H2. destruct (proj1 (hrun_from0 cmds1) h1 os1 H1) as (st1 & _ & HA1).
   eapply hrun_independent; eassumption.
+Qed.
+
+Lemma hrun_stable cmds h os : hrun cmds heap0 = Some (h, os) -> Stable (combine cmds os).
+Proof.
+  intros H. destruct (proj1 (hrun_from0 cmds) h os H) as (st & Hf & _).
+  eapply frun_stable. exact Hf.
 Qed.
 End Heap.
 
